@@ -202,6 +202,44 @@ theorem strip_anchors_identity (o : Opts) (hs : o.shorten = false) (hP : ParamsN
     | none => rfl
     | some l => exact label_eq_url o m url l hs hl
 
+/-! ## entities are never split -/
+
+/-- **entity_not_split** (full statement; true of the code after the D8 fix): a link label is the URL text
+itself or `p ++ "..."` where `p` is a proper prefix of the URL that ends on an entity boundary
+(`escapeSafe p`: every `&` in `p` still starts a complete entity) — for every URL text that is itself a
+piece of escaped text not cutting an entity (`WellFormed` guarantees it for each match). -/
+theorem entity_not_split (o : Opts) (m : M) (url : Str) (l : Link) (hu : escapeSafe url = true)
+    (h : linkParts o m url = some l) :
+    l.label = url ∨ ∃ p, l.label = p ++ dots ∧ p <+: url ∧ p.length < url.length ∧ escapeSafe p = true := by
+  obtain ⟨_, _, _, h4, _⟩ := linkParts_some o m url l h
+  rcases h4 with h4 | ⟨_, h4⟩
+  · left; exact h4
+  · rcases shortenLabel_prefix url (protoLen m) with h1 | ⟨p, hp1, hp2, hp3, hp4⟩
+    · left; rw [h4, h1]
+    · right
+      refine ⟨p, by rw [h4, hp3], hp1, hp2, ?_⟩
+      rw [hp4]
+      exact escapeSafe_dropCutEntity url _ hu (clip_prefix url _)
+
+/-- the hypothesis of `entity_not_split` is what `WellFormed` provides for every match -/
+theorem wfMatch_escapeSafe (t : Str) (m : M) (h : wfMatch t m = true) : escapeSafe (slice t m.start m.stop) = true := by
+  unfold wfMatch at h
+  simp only [Bool.and_eq_true] at h
+  exact h.1.2
+
+/-- the pre-fix guard (`amp > max_len - 5`) did split entities: the D8 witness, on the old repair step -/
+def dropCutEntityOld (url : Str) : Str :=
+  match rfind 38 url with
+  | some amp => if amp > maxLen - 5 then url.take amp else url
+  | none => url
+/-- `http://a.com/abcde&amp;x=1234…`: `clip` gives `http://a.com/abcde&am`; the old guard kept it (amp = 18 ≤ 25) -/
+theorem entity_split_before_fix :
+    let url := [104, 116, 116, 112, 58, 47, 47, 97, 46, 99, 111, 109, 47, 97, 98, 99, 100, 101, 38, 97, 109, 112, 59, 120, 61]
+      ++ List.replicate 25 49
+    escapeSafe url = true ∧ escapeSafe (dropCutEntityOld (clip url 7)) = false
+      ∧ escapeSafe (dropCutEntity (clip url 7)) = true := by decide
+
+
 /-! ## non-vacuity: a concrete text, CPython's actual matches on it, and the real output -/
 
 /-- `see http://a.com/x&y "www.b.org"` -/
